@@ -19,10 +19,12 @@ MANIFEST = dict(
           "simulator on generated noisy circuits incl. one-hot arguments of the 3/15-argument channels. Composition: proved for circuits of "
           "gates, (noisy) single-qubit measurements, resets and single-qubit Pauli channels on registers of any size, for every bit "
           "assignment and every probability argument (C02_circuit_dense), including DEPOLARIZE2 / PAULI_CHANNEL_2 (their program acts as "
-          "PAULI_CHANNEL_1 on each target, C02_two_qubit_channel); correlated chains and MPP noise at fragment level."),
+          "PAULI_CHANNEL_1 on each target, C02_two_qubit_channel) and correlated-error chains (an element applies its Pauli product iff its "
+          "chain bit is set, with the bit numbering of finalize_correlated_error, C02_chain_element; C02_chain_from_text reads a chain "
+          "interrupted by other channels from the parsed text); MPP noise is the noisy measurement of the auxiliary qubit."),
     note=("Trusted: as C01; additionally translate/channel_tables.py, the hand model of correlated_error_probs (fingerprint-pinned), "
           "float64 exactness of dyadic test probabilities. Print Assumptions: closed under the global context, except "
-          "functional_extensionality_dep (standard library) for C02_circuit_dense."),
+          "functional_extensionality_dep (standard library) for C02_circuit_dense and C02_chain_element."),
     technique="Coq proofs (finite vm_compute tables, symbolic table entries, induction over chain length) + executable circuit model vs exact sampler mixture",
     design_ref="DESIGN.md 4.C02",
 )
